@@ -6178,8 +6178,9 @@ impl GraphEngine {
                         edge.to
                     };
                     if let Ok(neighbor) = self.get_node(neighbor_id) {
-                        // Avoid duplicates for undirected edges
-                        if !results.iter().any(|(n, _)| n.id == neighbor.id) {
+                        // An undirected edge is in both lists: skip an EDGE that is already
+                        // there, not a neighbour (parallel edges are distinct steps)
+                        if !results.iter().any(|(_, e)| e.id == edge.id) {
                             results.push((neighbor, edge));
                         }
                     }
